@@ -50,6 +50,14 @@ def points3d(rng, V, tris, n, lattice=False):
         keep = rng.random((k3, 3)) < 0.5
         q = np.where(keep, q, rng.uniform(lo - 0.2 * size, hi + 0.2 * size, size=(k3, 3)))
     out.append(q)
+    if n >= 50:
+        # the three axis-parallel lines through (up to 40) vertices: the query shares two coordinates with a vertex
+        sel = V if len(V) <= 40 else V[rng.choice(len(V), size=40, replace=False)]
+        m = 8
+        for a_ in range(3):
+            L_ = np.repeat(sel, m, axis=0).copy()
+            L_[:, a_] = rng.uniform(lo[a_] - 0.15 * size, hi[a_] + 0.15 * size, size=len(L_))
+            out.append(L_)
     return np.vstack(out)
 
 
